@@ -139,7 +139,7 @@ def check_C17(tier, t0):
         "output labels 'Base Score:', 'Temporal Score:', 'Environmental Score:', 'Cleaned vector:', 'Red Hat vector:'; JSON starts at the first line beginning with '{' (DESIGN 6.8)",
         "v2 score lines need no rating; a rating that is printed must be the library's (DESIGN 3.3 i)",
         "command lines with several version flags are informational (clause a only)",
-        "the in-process stub is validated against real child processes on a sampled subset (stub_vs_real_agreements)",
+        "the in-process stub is validated against real child processes on a sampled subset (stub_vs_real_agreements): stdin/stdout pipes under five encodings, and one pseudo-terminal for stdin+stdout+stderr (input() takes its terminal path, isatty() is true) for short printable-ASCII scripts without an unterminated last line",
         "stdin is a pipe / simulated stream, not a pseudo-terminal",
     ]
     return core.finish("C17", tier, engine, agg, info, t0, extra, assumptions, rule)
